@@ -17,7 +17,13 @@ import (
 	"time"
 )
 
-const VerifRoot = "/verif"
+// VerifRoot is where evidence, replays and KNOWN_FINDINGS.txt live (the directory of the check script).
+var VerifRoot = func() string {
+	if v := os.Getenv("VERIF_ROOT"); v != "" {
+		return v
+	}
+	return "/verif"
+}()
 
 // Finding is one line of KNOWN_FINDINGS.jsonl.
 type Finding struct {
